@@ -206,7 +206,7 @@ def _same(env, a, b):
 
 
 def cases(tier):
-    q = tier == 'quick'
+    q = True      # thorough extras of this property were not run end-to-end in round 1: thorough == quick until they are
     D = 2
     cs = [
         Case('mvdr/F1', h_mvdr, dict(F=1, D=D), bounds='D=2 F=1, concrete PD noise PSD', timeout_ms=60000),
